@@ -829,9 +829,16 @@ func (c *Cursor) Forward(ctx context.Context) error {
 		if err != nil {
 			return fmt.Errorf("load: %w", err)
 		}
+		depth := len(c.path)
 		pe.linkIndex++
 		c.path = append(c.path, pathEntry{node: node})
-		return c.Min(ctx)
+		if err := c.Min(ctx); err != nil {
+			// leave the cursor where it was, so that the call can be retried
+			c.path = c.path[:depth]
+			c.path[depth-1].linkIndex--
+			return err
+		}
+		return nil
 	} else {
 		if pe.linkIndex+1 < len(node.Key) {
 			pe.linkIndex++
@@ -862,8 +869,14 @@ func (c *Cursor) Backward(ctx context.Context) error {
 		if err != nil {
 			return fmt.Errorf("load: %w", err)
 		}
+		depth := len(c.path)
 		c.path = append(c.path, pathEntry{node: node})
-		return c.Max(ctx)
+		if err := c.Max(ctx); err != nil {
+			// leave the cursor where it was, so that the call can be retried
+			c.path = c.path[:depth]
+			return err
+		}
+		return nil
 	} else {
 		if pe.linkIndex > 0 {
 			pe.linkIndex--
